@@ -256,7 +256,7 @@ def run_conc(prop, tier, seed, harness, workdir, T):
                                         "--episodes", str(eps), "--port-base", str(33000 + 1000 * k)],
                                        stdout=subprocess.PIPE, stderr=subprocess.STDOUT, text=True), rec))
     for p, rec in procs:
-        o, _ = p.communicate()
+        o, _ = p.communicate(timeout=1500)
         if p.returncode != 0: out["tool_errors"].append("conc failed: " + o[-1500:])
         else: recs.append(rec)
     allrec = os.path.join(workdir, "conc-all.ndjson")
@@ -407,7 +407,7 @@ def run_config(prop, tier, seed, harness, workdir, T):
                                         stdout=subprocess.PIPE, stderr=subprocess.STDOUT, text=True), po))
     res = {}
     for p_, po in procs_:
-        o_, _ = p_.communicate()
+        o_, _ = p_.communicate(timeout=1500)
         if p_.returncode != 0: out["tool_errors"].append("procs failed: " + o_[-1000:]); continue
         for l in open(po, encoding="utf-8"):
             r = json.loads(l); res[r["id"]] = r
